@@ -24,7 +24,7 @@ structure ProdOK (F : Nat → Option (List Nat)) (c : Cfg) (t : PThread) : Prop 
   bal : t.emitted ++ holdV t ++ t.pend = FMv F t.pulled
   okF : ∀ v ∈ t.pulled, (F v).isSome = true
   stopped : pastStop t.q.pc = true → t.pend = [] ∧ inputAt c t.sid = []
-  atStop : t.q.pc = .tAcq → t.q.rets = [retOf t] ∧ t.pend = [] ∧ inputAt c t.sid = []
+  atStop : t.q.pc = .tAcq → t.q.rets = retsT t ∧ t.pend = [] ∧ inputAt c t.sid = []
   atNext : t.q.pc = .eNext → t.pend = []
   handStop : t.q.pc = .eNext → t.ipc = .rel → t.hand = .stop → inputAt c t.sid = []
 
@@ -220,7 +220,7 @@ theorem clean_gen' {inputs0 : List (List Item)} {c c' : Cfg} {tid : Tid} {t t' :
     (hret : c'.sh.returned = c.sh.returned) (hprod : c'.sh.produced = c.sh.produced)
     (hexhF : c'.sh.exhausted = true → AllStopped c' ∧ c'.sh.q = []) (hlost : c'.sh.lost = [])
     (hip : t'.isProd = t.isProd) (h2 : t.isProd = true → pastStart t'.q.pc = pastStart t.q.pc)
-    (h3 : t.isProd = true → pastStop t'.q.pc = pastStop t.q.pc) (h4 : t.isProd = true → retOf t' = retOf t)
+    (h3 : t.isProd = true → pastStop t'.q.pc = pastStop t.q.pc) (h4 : t.isProd = true → retsT t' = retsT t)
     (h5 : t'.emitted = t.emitted)
     (hp : t'.isProd = true → ProdOK F c' t')
     (hother : tid ≠ 0 → ∀ t0, c.ths[0]? = some t0 → ConsOK c' t0)
@@ -246,7 +246,7 @@ theorem clean_gen {inputs0 : List (List Item)} {c c' : Cfg} {tid : Tid} {t t' : 
     (hexh : c'.sh.exhausted = c.sh.exhausted) (hq : c'.sh.q = c.sh.q) (hlost : c'.sh.lost = c.sh.lost)
     (hsr : c'.sh.stopRequested = c.sh.stopRequested)
     (hip : t'.isProd = t.isProd) (h2 : t.isProd = true → pastStart t'.q.pc = pastStart t.q.pc)
-    (h3 : t.isProd = true → pastStop t'.q.pc = pastStop t.q.pc) (h4 : t.isProd = true → retOf t' = retOf t)
+    (h3 : t.isProd = true → pastStop t'.q.pc = pastStop t.q.pc) (h4 : t.isProd = true → retsT t' = retsT t)
     (h5 : t'.emitted = t.emitted)
     (hp : t'.isProd = true → ProdOK F c' t') (hco : tid = 0 → ConsOK c' t') : Clean F inputs0 c' := by
   have hmem : t ∈ c.ths := List.mem_of_getElem? ht
@@ -268,7 +268,7 @@ theorem clean_same {inputs0 : List (List Item)} {c c' : Cfg} {tid : Tid} {t t' :
     (hexh : c'.sh.exhausted = c.sh.exhausted) (hq : c'.sh.q = c.sh.q) (hlost : c'.sh.lost = c.sh.lost)
     (hsr : c'.sh.stopRequested = c.sh.stopRequested)
     (hip : t'.isProd = t.isProd) (h2 : t.isProd = true → pastStart t'.q.pc = pastStart t.q.pc)
-    (h3 : t.isProd = true → pastStop t'.q.pc = pastStop t.q.pc) (h4 : t.isProd = true → retOf t' = retOf t)
+    (h3 : t.isProd = true → pastStop t'.q.pc = pastStop t.q.pc) (h4 : t.isProd = true → retsT t' = retsT t)
     (h5 : t'.emitted = t.emitted) (h6 : itemsOf t' = itemsOf t)
     (hp : t'.isProd = true → ProdOK F c' t') (hco : tid = 0 → ConsOK c' t') : Clean F inputs0 c' :=
   clean_gen hc ht hths (by intro sid h; unfold inputAt at h ⊢; rw [hin]; exact h)
